@@ -28,7 +28,8 @@ def check_imtlg(ctx: Ctx, dtype):
     rng = ctx.rng
     m = rng.choice([1, 2, 2, 3, 4])
     n = rng.randint(m, m + 3)
-    scale = rng.choice([Fr(1), Fr(1, 1000), Fr(1000), Fr(1)])
+    # all scales: the three aggregators are positively homogeneous (degree 1; IMTL-G's weights are scale-free)
+    scale = rng.choice([Fr(1), Fr(1, 1000), Fr(1000), Fr(1), Fr(1, 10 ** 6), Fr(1, 10 ** 9), Fr(10 ** 6)])
     J, d = m_unit(rng, m, n, scale=scale)
     rep = ask_agg(ctx.driver, "imtlg", J, d=d, guard=Fr(1e-12))
     ctx.case(("imtlg", sx(J), str(dtype)), nontrivial=rep is not None,
@@ -74,9 +75,11 @@ def check_config(ctx: Ctx, dtype):
     rng = ctx.rng
     m = rng.choice([1, 2, 2, 3, 4])
     n = rng.randint(m, m + 3)
-    scale = rng.choice([Fr(1), Fr(1, 1000), Fr(1000)])
-    J, d = m_unit(rng, m, n, scale=scale)
+    scale = rng.choice([Fr(1), Fr(1, 1000), Fr(1000), Fr(1, 10 ** 6), Fr(1, 10 ** 9), Fr(10 ** 6)])
     tiny = [i for i in range(m) if rng.random() < 0.15]
+    if tiny and dtype == torch.float32 and (scale < Fr(1, 1000)):
+        scale = Fr(1, 1000)          # (squares of entries below ~1e-19 leave single precision's normal range: runtime, not logic)
+    J, d = m_unit(rng, m, n, scale=scale)
     for i in tiny:
         # a gradient of norm ~1e-13..1e-17 is still a direction: its cosine must come out like the others'
         k = rng.choice([40, 50, 60]) if dtype == torch.float64 else rng.choice([40, 50])
@@ -142,7 +145,7 @@ def check_aligned(ctx: Ctx, dtype, cond=None):
         m = rng.choice([2, 3])
         n = rng.randint(m, m + 2)
         sig = sorted([Fr(1)] + [Fr(1, rng.randint(2, cond // 2)) for _ in range(m - 2)] + [Fr(1, cond)], reverse=True)
-    scale = rng.choice([Fr(1), Fr(1, 100), Fr(100)])
+    scale = rng.choice([Fr(1), Fr(1, 100), Fr(100), Fr(1, 10 ** 6), Fr(10 ** 5)])
     J, V, sigma, W = m_svd(rng, m, n, sigmas=sig, scale=scale)
     vecs = transpose(V)            # eigenvectors of J J^T = columns of V
     pref = rng.choice([None, [Fr(rng.randint(1, 8), 4) for _ in range(m)], "onehot"])
